@@ -4,6 +4,10 @@
 //	sw  the real sync() against a recording stub pool and stub queue, with containers whose
 //	    operation latch is held; reports the queue.Forget calls, the calls made by the spawned
 //	    goroutines, and whether the scheduler's wake-up timer was armed (uuidLock refused).
+//	lc  the real lockContainer / cancel / kill / requeue, run to completion one after the other on one
+//	    Scheduler, against a queue whose Get() reports the state the case gives and whose Lock / Cancel /
+//	    Unlock succeed or fail as the case says; reports the calls of each, whether it armed the wake-up
+//	    timer, and which containers' operation latches (sch.uuidOp) are held at the end.
 //	fl  the real fixStaleLocks() against a pool whose CountWorkers()/Running() and a queue whose
 //	    Entries() follow the case's script of snapshots; each wait is ended by a pool notification,
 //	    or (last snapshot, tl=1) by the staleLockTimeout timer.
@@ -73,6 +77,9 @@ type verifC15Stub struct {
 	qUpdated time.Time
 	forgets  []int
 	effects  map[int][]string
+	recGet   bool // op lc: record queue.Get calls as well
+	apiErr   bool // op lc: Lock / Cancel / Unlock fail
+	order    []string
 }
 
 func (p *verifC15Stub) snap() verifC15Snap {
@@ -86,6 +93,16 @@ func (p *verifC15Stub) rec(uuid, tag string) {
 	defer p.Unlock()
 	n := verifC15UUIDNum(uuid)
 	p.effects[n] = append(p.effects[n], fmt.Sprintf("%s%d", tag, n))
+	p.order = append(p.order, fmt.Sprintf("%s%d", tag, n))
+}
+
+func (p *verifC15Stub) api() error {
+	p.Lock()
+	defer p.Unlock()
+	if p.apiErr {
+		return fmt.Errorf("api call failed")
+	}
+	return nil
 }
 
 // WorkerPool
@@ -148,15 +165,18 @@ func (q verifC15Queue) Entries() (map[string]container.QueueEnt, time.Time) {
 	}
 	return r, p.qUpdated
 }
-func (q verifC15Queue) Lock(uuid string) error   { q.p.rec(uuid, "ql"); return nil }
-func (q verifC15Queue) Unlock(uuid string) error { q.p.rec(uuid, "qu"); return nil }
-func (q verifC15Queue) Cancel(uuid string) error { q.p.rec(uuid, "qc"); return nil }
+func (q verifC15Queue) Lock(uuid string) error   { q.p.rec(uuid, "ql"); return q.p.api() }
+func (q verifC15Queue) Unlock(uuid string) error { q.p.rec(uuid, "qu"); return q.p.api() }
+func (q verifC15Queue) Cancel(uuid string) error { q.p.rec(uuid, "qc"); return q.p.api() }
 func (q verifC15Queue) Forget(uuid string) {
 	q.p.Lock()
 	defer q.p.Unlock()
 	q.p.forgets = append(q.p.forgets, verifC15UUIDNum(uuid))
 }
 func (q verifC15Queue) Get(uuid string) (arvados.Container, bool) {
+	if q.p.recGet {
+		q.p.rec(uuid, "qg")
+	}
 	q.p.Lock()
 	defer q.p.Unlock()
 	ent, ok := q.p.snap().entries[uuid]
@@ -387,6 +407,104 @@ func verifC15Fl(f []string) string {
 	return last + " (script not consumed)"
 }
 
+func verifC15Lc(f []string) string {
+	p := &verifC15Stub{snaps: []verifC15Snap{{}}, effects: map[int][]string{}, recGet: true}
+	ctx := ctxlog.Context(context.Background(), verifC15Logger)
+	sch := New(ctx, verifC15Queue{p}, p, nil, time.Hour, time.Hour)
+	if !sch.wakeup.Stop() {
+		<-sch.wakeup.C
+	}
+	var out []string
+	for _, item := range strings.Split(f[1], ",") {
+		x := strings.Split(item, ":")
+		if len(x[0]) < 2 {
+			return "bad-op"
+		}
+		n, err := strconv.Atoi(x[0][1:])
+		if err != nil || n < 0 {
+			return "bad-op"
+		}
+		uuid := verifC15UUID(n)
+		if len(x) == 1 {
+			sch.mtx.Lock()
+			switch x[0][0] {
+			case 'h':
+				if _, held := sch.uuidOp[uuid]; !held {
+					sch.uuidOp[uuid] = "held-by-case"
+				}
+			case 'f':
+				delete(sch.uuidOp, uuid)
+			default:
+				sch.mtx.Unlock()
+				return "bad-op"
+			}
+			sch.mtx.Unlock()
+			out = append(out, "-")
+			continue
+		}
+		if len(x) != 3 || !strings.Contains("lckr", x[0][:1]) || (x[2] != "0" && x[2] != "1") {
+			return "bad-op"
+		}
+		ents := map[string]container.QueueEnt{}
+		ent := container.QueueEnt{Container: arvados.Container{UUID: uuid, Priority: 1}}
+		if x[1] != "-" {
+			st, ok := verifC15States[x[1]]
+			if !ok {
+				return "bad-op"
+			}
+			ent.Container.State = st
+			ents[uuid] = ent
+		}
+		p.Lock()
+		p.snaps = []verifC15Snap{{entries: ents}}
+		p.apiErr = x[2] == "0"
+		p.order = nil
+		p.Unlock()
+		switch x[0][0] {
+		case 'l':
+			sch.lockContainer(verifC15Logger, uuid)
+		case 'c':
+			sch.cancel(uuid, "verification case")
+		case 'k':
+			sch.kill(uuid, "verification case")
+		case 'r':
+			sch.requeue(ent, "verification case")
+		}
+		wake := sch.wakeup.Stop() || len(sch.wakeup.C) > 0
+		select {
+		case <-sch.wakeup.C:
+		default:
+		}
+		p.Lock()
+		calls := "-"
+		if len(p.order) > 0 {
+			calls = strings.Join(p.order, ".")
+		}
+		p.Unlock()
+		w := "0"
+		if wake {
+			w = "1"
+		}
+		out = append(out, calls+"|w"+w)
+	}
+	sch.mtx.Lock()
+	var held []int
+	for k := range sch.uuidOp {
+		held = append(held, verifC15UUIDNum(k))
+	}
+	sch.mtx.Unlock()
+	sort.Ints(held)
+	hs := "-"
+	if len(held) > 0 {
+		var t []string
+		for _, h := range held {
+			t = append(t, strconv.Itoa(h))
+		}
+		hs = strings.Join(t, "/")
+	}
+	return strings.Join(out, ",") + " latch=" + hs
+}
+
 func verifC15Case(line string) (out string) {
 	defer func() {
 		if r := recover(); r != nil {
@@ -399,6 +517,8 @@ func verifC15Case(line string) (out string) {
 		return verifC15Sw(f)
 	case f[0] == "fl" && len(f) == 3:
 		return verifC15Fl(f)
+	case f[0] == "lc" && len(f) == 2:
+		return verifC15Lc(f)
 	}
 	return "bad-op"
 }
